@@ -349,6 +349,29 @@ example : sites.length = count ∧ 300 ≤ count := by decide +kernel
 
 end Inventory
 
+
+/-- the driver's classification feeds `detect`: a site classified as bound leaf is a leaf with
+`g.bound = true`, reported together with exactly the predicates that bind it -/
+theorem classify_bound (g : Graph) (r : Nat) (k : Kind) (path : String) (l : Leaf) (ps : List Pred)
+    (h : g.classify r k path = SiteClass.boundLeaf l ps) : g.bound l = true ∧ ps = g.predsOn l := by
+  unfold Graph.classify at h
+  split at h
+  · cases h
+  · split at h
+    · cases h
+    · split at h
+      · cases h
+      · split at h
+        · rename_i l' _
+          split at h
+          · rename_i hb
+            injection h with h1 h2
+            subst h1; subst h2
+            exact ⟨hb, rfl⟩
+          · cases h
+        · unfold Graph.classifyContainer at h
+          split at h <;> cases h
+
 /-! ### the graphs the driver uses are well formed -/
 
 /-- every predicate binds only declared leaves -/
